@@ -2,6 +2,7 @@ package parsersim
 
 import (
 	"fmt"
+	"math"
 	"strings"
 
 	"verifsim/gen"
@@ -88,7 +89,8 @@ func campaignC16(p *Parser, req *Request, resp *Response) {
 			"left_recursion": fmt.Sprint(contains(p.Flags, "-support-left-recursion")),
 		}
 	}
-	viol := func(n uint64, class, msg string, detail map[string]any) {
+	var viol func(n uint64, class, msg string, detail map[string]any)
+	violAt := func(n uint64, class, msg string, detail map[string]any) {
 		if detail == nil {
 			detail = map[string]any{}
 		}
@@ -96,6 +98,7 @@ func campaignC16(p *Parser, req *Request, resp *Response) {
 		resp.Violations = append(resp.Violations, Violation{Class: class, Msg: fmt.Sprintf("MaxExpressions(%d): %s", n, msg), Attrs: attrs(n, class), Detail: detail, Budgets: []uint64{n}})
 	}
 
+	viol = violAt
 	R := p.Solo(&call, req.Pool, int64(ref+2)*C)
 	resp.Runs++
 	if R.Aborted || R.Overflow {
@@ -216,18 +219,46 @@ func campaignC16(p *Parser, req *Request, resp *Response) {
 				budgets = append(budgets, n)
 			}
 		}
+		if !refExhausted {
+			// budgets far beyond what the parse needs, at the edges of the counter's
+			// type, and no budget at all (0 here: the option is not passed): the
+			// reference did not exhaust its own budget, so all of these are "a
+			// budget that is not exhausted" and the unbounded parse respectively
+			huge := []uint64{1 << 31, 1<<32 + 1, 1<<63 - 1, 1 << 63, math.MaxUint64 - 1, math.MaxUint64}
+			budgets = append(budgets, huge[simrt.Choose(len(huge))], huge[simrt.Choose(len(huge))], 0)
+		}
 	}
 
 	var prevHist []string
 	var prevN uint64
-	for _, n := range budgets {
+	for _, given := range budgets {
 		c := call
-		c.Opts.MaxExpr = n
-		r := p.Solo(&c, req.Pool, int64(n+2)*C)
+		c.Opts.MaxExpr = given
+		n := given
+		if given == 0 {
+			n = math.MaxUint64 // no MaxExpressions option: the unbounded parse
+		}
+		viol := func(_ uint64, class, msg string, detail map[string]any) {
+			if given == 0 {
+				msg = "(budget 0 stands for: no MaxExpressions option at all) " + msg
+			}
+			violAt(given, class, msg, detail)
+		}
+		lim := n
+		if lim > ref && !refExhausted {
+			lim = ref // the reference returned within ref expressions; so must this run
+		}
+		if lim > 1<<40 {
+			lim = 1 << 40
+		}
+		r := p.Solo(&c, req.Pool, int64(lim+2)*C)
 		resp.Runs++
 		resp.stat("bounded_runs", 1)
+		if n > ref {
+			resp.stat("huge_or_no_budget_runs", 1)
+		}
 		if r.Aborted {
-			viol(n, "not-bounded", fmt.Sprintf("the parse did not return within %d instrumentation steps (%d per expression allowed); ExprCnt=%d", int64(n+2)*C, C, r.ExprCnt), nil)
+			viol(n, "not-bounded", fmt.Sprintf("the parse did not return within %d instrumentation steps (%d per expression allowed); ExprCnt=%d", int64(lim+2)*C, C, r.ExprCnt), nil)
 			continue
 		}
 		if r.Overflow {
@@ -241,7 +272,7 @@ func campaignC16(p *Parser, req *Request, resp *Response) {
 			}
 		}
 		escapedBudget := r.Escaped != "" && strings.Contains(r.Escaped, maxExprMsg)
-		if countKnown && r.ExprCnt > n+1 {
+		if countKnown && n < math.MaxUint64-1 && r.ExprCnt > n+1 {
 			viol(n, "budget-exceeded", fmt.Sprintf("%d expressions were evaluated", r.ExprCnt), nil)
 		}
 		// every code-block invocation is itself one evaluated expression, so even
@@ -252,7 +283,7 @@ func campaignC16(p *Parser, req *Request, resp *Response) {
 			continue
 		}
 		mustExhaust := ticksKnown && !refExhausted && n < N || refExhausted && n < ref || !refExhausted && uint64(len(refHist)) > n
-		mustEqual := ticksKnown && !refExhausted && n >= N
+		mustEqual := ticksKnown && !refExhausted && n >= N || !refExhausted && n >= ref
 		if escapedBudget {
 			resp.stat("budget_panic_escaped", 1)
 			viol(n, "budget-panic-escaped", "the budget exhaustion reached the caller as a panic instead of being reported as an error: "+r.Escaped, nil)
